@@ -7,6 +7,7 @@ import ast
 from tiv.astutil import conds, body_walk, call_name, dotted, enclosing_stmt, guards, kw, norm, short, stores_in, try_context, walk_local
 from tiv.cfg import CFG, EX, KI, flag_edges, fmt_path
 from tiv.mutate import M
+from tiv.sem import expand, econds, anon
 from tiv.paths import dedupe_by_stmt, leak_points
 from tiv.cfg import may_raise_sync
 
@@ -36,8 +37,8 @@ def _is_finalize(n, var="render_data"):
 def run(ck, m):
     # ---- R1 ----------------------------------------------------------------------------
     fin = m.get(TY, "RenderData.finalize")
-    calls = [c for c in body_walk(fin) if isinstance(c, ast.Call) and (call_name(c) or "").endswith("_finalize_render_data_")]
-    ck.ob("R1", fin, len(calls) == 1 and "not self.finalized" in conds(calls[0]),
+    calls = [c for c in body_walk(fin) if isinstance(c, ast.Call) and norm(expand(fin, c.func)).endswith("_finalize_render_data_")]
+    ck.ob("R1", fin, len(calls) == 1 and "not self.finalized" in econds(fin, calls[0]),
           "the finalizer must be called exactly once and only when the data is not yet finalized (guard `not self.finalized`)", stmt="RenderData.finalize: finalizer call guarded by not self.finalized")
     sets = [st for t, st in stores_in(ast.Module(body=fin.body, type_ignores=[])) if norm(t) == "self.finalized"]
     in_finally = bool(sets) and all(any(part == "finalbody" for _, part in try_context(s)) for s in sets) and all(norm(s.value) == "True" for s in sets)
@@ -45,19 +46,19 @@ def run(ck, m):
     ck.ob("R1", fin, in_finally and prot, "the flag must be set in the finally of the try that calls the finalizer (a failing finalizer must not be retried, and a second call must be a no-op)",
           stmt="RenderData.finalize: flag set in finally")
     other = [st for st in body_walk(fin) if isinstance(st, (ast.Expr, ast.Assign, ast.AugAssign, ast.Delete)) and not (isinstance(st, ast.Expr) and isinstance(st.value, ast.Constant))
-             and "not self.finalized" not in conds(st)]
+             and "not self.finalized" not in econds(fin, st)]
     ck.ob("R1", fin, not other, f"finalize() does work outside the not-finalized guard: {[short(o, 40) for o in other]}", stmt="RenderData.finalize: everything guarded by not self.finalized")
     dl = m.get(TY, "RenderData.__del__")
     cs = [c for c in body_walk(dl) if isinstance(c, ast.Call)]
     ck.ob("R1", dl, len(cs) == 1 and norm(cs[0]) == "self.finalize()", "__del__ must only delegate to finalize()", stmt="RenderData.__del__ delegates")
     cl = m.get(IT, "RenderIterator.close")
     effects = [st for st in body_walk(cl) if isinstance(st, (ast.Expr, ast.Assign, ast.AugAssign, ast.Delete)) and not (isinstance(st, ast.Expr) and isinstance(st.value, ast.Constant))]
-    ung = [st for st in effects if "not self._closed" not in conds(st)]
+    ung = [st for st in effects if "not self._closed" not in econds(cl, st)]
     ck.ob("R1", cl, bool(effects) and not ung, f"close() does work when the iterator is already closed (idempotence): {[short(o, 40) for o in ung]}", stmt="RenderIterator.close: everything guarded by not self._closed")
     flag = [st for st in effects if norm(st) == "self._closed = True"]
     ck.ob("R1", cl, len(flag) == 1 and all(e.lineno <= flag[0].lineno for e in effects), "`self._closed = True` must be the last effect of close()", stmt="RenderIterator.close: _closed set last")
     fz = [c for c in body_walk(cl) if isinstance(c, ast.Call) and norm(c) == "self._render_data.finalize()"]
-    ck.ob("R1", cl, len(fz) == 1 and "self._finalize_data" in conds(fz[0]),
+    ck.ob("R1", cl, len(fz) == 1 and "self._finalize_data" in econds(cl, fz[0]),
           "close() must finalize the data exactly once and only under `self._finalize_data`", stmt="RenderIterator.close: finalize under _finalize_data")
     # ---- R5 order
     gi = next((st.lineno for st in effects if norm(st) == "self._iterator.close()"), None)
@@ -92,7 +93,7 @@ def run(ck, m):
             ck.ob("R2", x.ast if x is not None else creates[0], bad is None,
                   f"with finalize={flag}: after {where} the render data created in _init_render_ leaves through {bad[0] if bad else ''} without finalize(): "
                   f"{fmt_path(bad[1]) if bad else ''}" + ("" if flag else " - the caller never receives the data on this path, so nobody can finalize it"),
-                  stmt=f"_init_render_[finalize={flag}] fault at: {short(x.ast, 90) if x is not None else '<none: normal return>'}")
+                  stmt=f"_init_render_[finalize={flag}] fault at: {anon(ir, x.ast)[:110] if x is not None else '<none: normal return>'}")
     # callers with finalize=False
     owners = []
     for rel, q, fn in m.functions():
@@ -134,7 +135,7 @@ def run(ck, m):
                 where = f"a failure/interrupt in `{short(x.ast, 60)}`" if x is not None else "normal completion"
                 ck.ob("R2", x.ast if x is not None else st, bad is None,
                       f"{q}: after {where} the render data obtained with finalize=False leaves through {bad[0] if bad else ''} without {data_var}.finalize(): {fmt_path(bad[1]) if bad else ''}",
-                      stmt=f"{q} fault at: {short(x.ast, 90) if x is not None else '<none: normal return>'}")
+                      stmt=f"{q} fault at: {anon(fn, x.ast)[:110] if x is not None else '<none: normal return>'}")
     itf = m.get(IT, "RenderIterator._iterate")
     before = []
     store = None
